@@ -40,7 +40,6 @@ Fixpoint bMapComma {A} (b : bytes) (first : bool) (l : list A) (f : bytes -> A -
   end.
 Definition bString (b : bytes) : bytes := trim_space b.
 
-Definition S (l : list N) : bytes := l.
 Definition W_CREATE_TABLE : bytes := [67;82;69;65;84;69;32;84;65;66;76;69].
 Definition W_NOT : bytes := [78;79;84].
 Definition W_NULL : bytes := [78;85;76;76].
